@@ -76,6 +76,10 @@ CHECKS["C14"] = ("fvh-blackbox", "model-based generated multi-client pub/sub his
          "generated histories of four subscriber and two publisher connections (SUBSCRIBE/PSUBSCRIBE 1-3 names incl. repeats, UNSUBSCRIBE/PUNSUBSCRIBE named/all/not-subscribed/nothing-subscribed, PUBLISH with binary, empty, CRLF, RESP-looking and up to 70 KB payloads, pipelined publish bursts, disconnect+reconnect) over overlapping channels and glob patterns; a model decides every acknowledgement with its remaining count, the PUBLISH integer, and per subscriber exactly the due message/pmessage frames byte for byte in publish order; after every step nobody has an extra frame.",
          "order of one client's frames within a single publish, and of the acknowledgements of an unsubscribe-all, is not specified and compared as a multiset; commands other than (un)subscribe sent in subscribed mode are not generated", "3/C14")
 
+CHECKS["C19"] = ("fvh-blackbox", "generated collections and full cursor iterations interleaved with generated additions/deletions of other elements, checked against a model of the stable and ever-existing sets",
+         "one case = a collection (key space with six types, or one hash/set/sorted set) of stable plus volatile elements, one full SCAN/HSCAN/SSCAN/ZSCAN iteration with generated COUNT, MATCH, TYPE, and a generated batch of additions and deletions of volatile elements after each call. Oracle: every stable element satisfying the filters is returned; every returned element existed and satisfies MATCH (model glob) and TYPE; HSCAN values / ZSCAN scores are the element's own; the iteration terminates within n/COUNT + 12 calls after modifications stop.",
+         "elements whose value or score changes during the iteration are not generated; COUNT 0 and malformed options are not part of the property", "3/C19")
+
 checks = []
 for i in ids:
     if i in CHECKS:
